@@ -1,5 +1,6 @@
+from xeng import progs, progs2, progs3
 from . import _common
 
 
 def run(out):
-    _common.run(out, 'C08', s_props=['C08'])
+    _common.run(out, 'C08', x=[dict(fn=progs3.c08_corpus, name='c08', compile_violation=True)], s_props=['C08'])
